@@ -132,6 +132,8 @@ def to_json(doc, rng, pretty=False):
     ind = rng.choice([1, 2, 4]) if pretty else 0
     sep_colon = rng.choice([":", ": "]) if not pretty else ": "
     sep_comma = rng.choice([",", ", "]) if not pretty else ","
+    # every fourth JSON text spells non-ASCII characters as \uXXXX escapes (characters outside the BMP become surrogate pairs), like json.dumps does by default
+    asc = rng.random() < 0.25
 
     def nl(depth):
         if pretty:
@@ -147,7 +149,7 @@ def to_json(doc, rng, pretty=False):
                 if i:
                     wr.w(sep_comma)
                 nl(depth + 1)
-                wr.w(json.dumps(k, ensure_ascii=False) + sep_colon)
+                wr.w(json.dumps(k, ensure_ascii=asc) + sep_colon)
                 emit(x, path + (k,), depth + 1)
             nl(depth)
             wr.w("}")
@@ -165,7 +167,7 @@ def to_json(doc, rng, pretty=False):
             wr.w("]")
         elif isinstance(v, str):
             wr.mark(jpath(path), "double")
-            wr.w(json.dumps(v, ensure_ascii=False))
+            wr.w(json.dumps(v, ensure_ascii=asc))
         elif v is None:
             wr.mark(jpath(path), "null")
             wr.w("null")
